@@ -19,7 +19,7 @@ from pdfminer.pdfcolor import PDFColorSpace
 from pdfminer.pdfexceptions import PDFTypeError, PDFValueError
 from pdfminer.pdffont import PDFFont
 from pdfminer.pdfinterp import Color, PDFGraphicState
-from pdfminer.pdftypes import PDFStream, resolve1
+from pdfminer.pdftypes import PDFStream, int_value, resolve1
 from pdfminer.utils import (
     INF,
     LTComponentT,
@@ -324,12 +324,13 @@ class LTImage(LTComponent):
         self.name = name
         self.stream = stream
         # any of these values may be written as an indirect reference
+        # and a damaged file may hold any type of object in their place
         self.srcsize = (
-            resolve1(stream.get_any(("W", "Width"))),
-            resolve1(stream.get_any(("H", "Height"))),
+            int_value(stream.get_any(("W", "Width"))),
+            int_value(stream.get_any(("H", "Height"))),
         )
         self.imagemask = resolve1(stream.get_any(("IM", "ImageMask")))
-        self.bits = resolve1(stream.get_any(("BPC", "BitsPerComponent"), 1))
+        self.bits = int_value(stream.get_any(("BPC", "BitsPerComponent"), 1))
         self.colorspace = resolve1(stream.get_any(("CS", "ColorSpace")))
         if not isinstance(self.colorspace, list):
             self.colorspace = [self.colorspace]
